@@ -32,6 +32,7 @@ type Job struct {
 	MaxSec    int               `json:"max_seconds,omitempty"`
 	UFMul     bool              `json:"uf_mul,omitempty"`
 	NonTerm   bool              `json:"nonterm,omitempty"`
+	NoPhiConc bool              `json:"no_phi_conc,omitempty"`
 	Solver    []string          `json:"solver,omitempty"`
 }
 
@@ -213,6 +214,7 @@ func runJob(prog *ssa.Program, pkgs map[string]*ssa.Package, job Job, verbose bo
 		LoopCap: job.LoopCap, Stubs: job.Stubs, Params: job.Params, Verbose: verbose}
 	opt.UFMul = job.UFMul
 	opt.NonTerm = job.NonTerm
+	opt.NoPhiConc = job.NoPhiConc
 	if job.MaxSec > 0 {
 		opt.Deadline = start.Add(time.Duration(job.MaxSec) * time.Second)
 	}
